@@ -41,6 +41,7 @@ class computechi2(object):
             self.nstar = amatrix.shape[1]
         else:
             self.nstar = 1
+            self.amatrix = amatrix.reshape(amatrix.size, 1)
         self.bvec = bvec * sqivar
         self.mmatrix = self.amatrix * np.tile(sqivar, self.nstar).reshape(self.nstar, bvec.size).transpose()
         mm = np.dot(self.mmatrix.T, self.mmatrix)
